@@ -25,8 +25,10 @@ from . import translate_c20 as TR
 from .core import listlit
 
 import jug.options as O                       # noqa: E402  (jugrun put /repo first on sys.path)
-import jug.backends.select as SEL             # noqa: E402
+import jug.backends.select                    # noqa: E402,F401
 from jug.subcommands import cmdapi            # noqa: E402
+
+SEL = sys.modules['jug.backends.select']      # (jug.backends.select the attribute is the function)
 
 EVIDENCE = dict(
     level='proof',
@@ -140,22 +142,6 @@ def render_opt(rng, e, flag, raw):
     if raw.startswith('-') or rng.random() < 0.4:
         return ['%s=%s' % (flag, raw)]
     return [flag, raw]
-
-
-def render_args(case, optmap, rng):
-    """Arrange the case as an argv the way a user would; only shapes whose meaning is unambiguous."""
-    toks = [[t for t in render_opt(rng, optmap.get((case.sub, f)), f, r)] for f, r in case.opts]
-    kind, split = case.layout
-    before = [t for ts in toks[:split] for t in ts]
-    after = [t for ts in toks[split:] for t in ts]
-    if kind == 'plain':            # sub optsA pos... optsB
-        return [case.sub] + before + list(case.pos) + after
-    if kind == 'dashdash-first':   # sub opts -- pos...
-        return [case.sub] + before + after + ['--'] + list(case.pos)
-    if kind == 'dashdash-mid':     # sub opts jugfile plain... -- rest...
-        k = split if split <= len(case.pos) else len(case.pos)
-        raise AssertionError('unused')
-    raise ValueError(kind)
 
 
 def render_cfg(cfg):
@@ -334,23 +320,19 @@ def compare(ck, case, args, obs, exp, keys, defaults, family):
             lay = {'command line': exp[4]['command line'].get(k, '<absent>'),
                    'configuration file': exp[4]['configuration file'].get(k, '<absent>'),
                    'default': jval(defaults.get(k, MISSING)), 'expected value comes from': exp[3].get(k)}
+            cfg_s = exp[4]['configuration file'].get(k)
             if k == 'jugdir':
                 what = 'expanded jugdir differs'
-            elif exp[3].get(k) == 'configuration file' and isinstance(e, bool) and same(o, defaults.get(k, MISSING)) \
-                    and lay['command line'] == '<absent>' and o is not (cfg_bool_by_type(lay['configuration file'])):
-                what = 'configuration file ignored: the value of an option absent from the command line shadows it'
-            elif exp[3].get(k) == 'configuration file' and isinstance(e, bool):
-                what = 'configuration boolean not converted as _str_to_bool'
+            elif exp[3].get(k) == 'configuration file' and isinstance(e, bool) and o is bool(cfg_s):
+                what = 'configuration boolean converted as bool(str), not as _str_to_bool'
+            elif exp[3].get(k) == 'configuration file' and same(o, defaults.get(k, MISSING)):
+                what = 'configuration file ignored although the option is absent from the command line'
             else:
                 what = 'option value is not command line ?? coerce(configuration file) ?? default'
             return report(what, k, e, o, lay)
     if obs[2] != exp[2]:
         return report('sys.argv is not [jugfile] + extra arguments', 'sys.argv', exp[2], obs[2])
     return True
-
-
-def cfg_bool_by_type(s):
-    return bool(s) if isinstance(s, str) else None
 
 
 # ----------------------------------------------------------------------------- generators
@@ -552,9 +534,8 @@ def backend_lit(b):
 
 
 def py_backend(s):
-    for prefix, kind in (('redis:', None),):
-        if s.startswith(prefix):
-            return ('BRedis', s)
+    if s.startswith('redis:'):
+        return ('BRedis', s)
     if s == 'dict_store':
         return ('BDict',)
     if s.startswith('dict_store:'):
@@ -576,14 +557,20 @@ def setup(ck):
     loaded = sorted(cmdapi._commands)
     subs = [s for s in tab['subcommands'] if s in loaded]
     missing = [s for s in tab['subcommands'] if s not in loaded]
+    dead = set()
     if missing:
-        raise RuntimeError('subcommands %s are declared in the source but did not load in this environment '
-                           '(optional dependency missing?): their defaults are absent at run time, the table does not apply'
-                           % missing)
+        # e.g. an optional package is not installed: the subcommand and the defaults it registers do not exist
+        # at run time.  It is skipped (recorded), and the option names only it knows are left alone.
+        ck.notes.append('subcommands declared in the source that did not load here (skipped): %s' % missing)
+        ck.count('skipped-subcommands', len(missing))
+        for m in missing:
+            dead |= set(tab['defaults_of'].get(m, []))
+            dead |= {e['dest'] for e in tab['specific'] if e['sub'] == m}
     extra = [s for s in loaded if s not in tab['subcommands']]
     if extra:
         ck.notes.append('subcommands loaded from outside jug/subcommands (ignored): %s' % extra)
     g = Gen(ck, tab, subs)
+    g.names = [n for n in g.names if n not in dead]
     keys = sorted(set(g.names) | {tab['subdest'], 'user_args'} | set(UNKNOWN_NAMES))
     return tab, g, keys
 
@@ -702,9 +689,11 @@ def run(ck):
         if len(seen) != 1:
             ck.violation({'kind': 'impl-violation', 'what': 'subcommands of one project address different stores',
                           'config_text': render_cfg(cfg), 'date': date,
-                          'locations': [{'location': jval(list(k)) if k[0] in ('arg-error',) else [k[0], list(k[1]) if len(k) > 1 else None],
-                                         'commands': v[:3]} for k, v in seen.items()]})
-        ck.count('same-project:%s' % ('ok' if len(seen) == 1 and next(iter(seen))[0] not in ('arg-error', 'coerce-error', 'format-error') else next(iter(seen))[0] if len(seen) == 1 else 'DIFFERENT'))
+                          'locations': [{'location': repr(k), 'commands': v[:3]} for k, v in seen.items()]})
+            ck.count('same-project:DIFFERENT')
+        else:
+            k = next(iter(seen))
+            ck.count('same-project:%s' % (k[0] if len(k) == 1 else 'one-location'))
 
     # ------------------------------------------------------------ evaluate the model on everything observed
     fails = ck.cases('options', IMPORTS, CASE_TYPE, CHK, lits, shard=ck.n(160, 400), preamble=preamble)
